@@ -118,8 +118,15 @@ pub fn run(tier: Tier, shard: Shard, stats: &mut Stats) {
                 let tpl = format!("|{{bar:{n}}}|");
                 // the order in which the style is put together must not matter: template first,
                 // progress characters first, or the template replaced on the style of a live bar
-                for order in 0..if n <= 12 { 3 } else { 1 } {
-                let order_name = ["with_template, progress_chars", "progress_chars, template", "bar.style().template(..) installed with set_style"][order];
+                // (orders 3..=5: an alignment flag in the placeholder, which has no bearing on the cells of a bar)
+                for order in 0..if n <= 12 { 6 } else { 1 } {
+                let order_name = ["with_template, progress_chars", "progress_chars, template", "bar.style().template(..) installed with set_style", "with_template, progress_chars", "with_template, progress_chars", "with_template, progress_chars"][order];
+                let tpl = match order {
+                    3 => format!("|{{bar:>{n}}}|"),
+                    4 => format!("|{{bar:^{n}}}|"),
+                    5 => format!("|{{bar:<{n}}}|"),
+                    _ => tpl.clone(),
+                };
                 let style = match catch(|| match order {
                     1 => ProgressStyle::default_bar().progress_chars(&set_s).template(&tpl).unwrap(),
                     _ => ProgressStyle::with_template(&tpl).unwrap().progress_chars(&set_s),
@@ -157,6 +164,16 @@ pub fn run(tier: Tier, shard: Shard, stats: &mut Stats) {
                             let Some(inner) = line.strip_prefix('|').and_then(|l| l.strip_suffix('|')) else {
                                 stats.violation(Violation { class: "frame: delimiters lost".into(), config: "bar".into(), history: hist, detail: line });
                                 continue;
+                            };
+                            // the columns left over when N is not a multiple of the cell width go to the side(s)
+                            // the alignment flag names: move them to the right for the judge
+                            let moved;
+                            let inner = if order == 3 || order == 4 {
+                                let t = inner.trim_matches(' ');
+                                moved = format!("{}{}", t, " ".repeat(inner.chars().filter(|c| *c == ' ').count() - t.chars().filter(|c| *c == ' ').count()));
+                                moved.as_str()
+                            } else {
+                                inner
                             };
                             match judge(inner, &set, n, c, pos, len) {
                                 Ok((filled, partial)) => {
